@@ -108,6 +108,11 @@ type c18Pool struct {
 type c18Task struct {
 	name string
 	run  func() string // returns a digest of everything the task produced
+	// kept, when set by run, is a byte result the task still holds (a caller
+	// keeps what it was given): it is hashed again after every other task has
+	// finished, because a result that aliases recycled storage changes under
+	// its holder only later.
+	kept *[]byte
 }
 
 func digestRast(ops []world.RastOp, err error) string {
@@ -152,7 +157,13 @@ func c18BuildPool(ctx *Ctx, t *tape.Tape) *c18Pool {
 			}
 		}
 		if b == nil {
-			prog := world.GenProgram(t, world.GenCfg{MaxItems: 6, EncOnly: true})
+			gc := world.GenCfg{MaxItems: 6, EncOnly: true}
+			if t.Chance(1, 40) {
+				// a big graphic now and then (several kB, a listing of 100 kB and
+				// more): buffers grow through their size classes
+				gc.MaxItems, gc.LongRuns = 10, 60
+			}
+			prog := world.GenProgram(t, gc)
 			b, desc = encodeOps(prog), "written by the Encoder from a generated program"
 		}
 		intact := true
@@ -270,7 +281,7 @@ func c18MakeTask(t *tape.Tape, p *c18Pool) c18Task {
 	}
 	switch t.Pick(4, 2, 4, 3, 1, 2, 3, 3, 2, 1, 2, 2, 1, 1) {
 	case 0:
-		return c18Task{"decode->Renderer->recording rasteriser" + suffix, func() string {
+		return c18Task{name: "decode->Renderer->recording rasteriser" + suffix, run: func() string {
 			z := &world.RecRaster{}
 			var r render.Renderer
 			r.SetRasterizer(z, rect)
@@ -282,7 +293,7 @@ func c18MakeTask(t *tape.Tape, p *c18Pool) c18Task {
 			// only intact corpus files go into the vec back end: x/image/vector
 			// itself panics (integer divide by zero) on very large coordinates,
 			// which faulted files and generated programs can carry
-			return c18Task{"decode(faulted)->Renderer->recording rasteriser" + suffix, func() string {
+			return c18Task{name: "decode(faulted)->Renderer->recording rasteriser" + suffix, run: func() string {
 				z := &world.RecRaster{}
 				var r render.Renderer
 				r.SetRasterizer(z, rect)
@@ -291,7 +302,7 @@ func c18MakeTask(t *tape.Tape, p *c18Pool) c18Task {
 			}}
 		}
 		w, h := 8+t.Intn(40), 8+t.Intn(40)
-		return c18Task{fmt.Sprintf("decode->Renderer->vec.Rasterizer %dx%d", w, h) + suffix, func() string {
+		return c18Task{name: fmt.Sprintf("decode->Renderer->vec.Rasterizer %dx%d", w, h) + suffix, run: func() string {
 			img := image.NewRGBA(image.Rect(0, 0, w, h))
 			vz := vec.NewRasterizer(img)
 			tz := &world.TameRaster{Rasterizer: vz, Limit: 50000}
@@ -301,19 +312,23 @@ func c18MakeTask(t *tape.Tape, p *c18Pool) c18Task {
 			return fmt.Sprintf("err=%s pixels %016x segments %016x", errText(err), fnv(img.Pix), tz.Hash)
 		}}
 	case 2:
-		return c18Task{"decode->Encoder->Bytes" + suffix, func() string {
+		kept := new([]byte)
+		return c18Task{name: "decode->Encoder->Bytes" + suffix, kept: kept, run: func() string {
 			var e encode.Encoder
 			err := decode.Decode(wrap(&e), src)
 			b, berr := e.Bytes()
+			*kept = b
 			return fmt.Sprintf("err=%s bytes-err=%s %d bytes %016x", errText(err), errText(berr), len(b), fnv(b))
 		}}
 	case 3:
-		return c18Task{"Disassemble" + suffix, func() string {
+		kept := new([]byte)
+		return c18Task{name: "Disassemble" + suffix, kept: kept, run: func() string {
 			out, err := decode.Disassemble(src)
+			*kept = out
 			return fmt.Sprintf("err=%s %d bytes of listing %016x", errText(err), len(out), fnv(out))
 		}}
 	case 4:
-		return c18Task{"DecodeViewBox" + suffix, func() string {
+		return c18Task{name: "DecodeViewBox" + suffix, run: func() string {
 			vb, err := decode.DecodeViewBox(src)
 			return fmt.Sprintf("err=%s %v", errText(err), vb)
 		}}
@@ -322,14 +337,14 @@ func c18MakeTask(t *tape.Tape, p *c18Pool) c18Task {
 		if t.Chance(1, 3) {
 			opts = opts[1:]
 		}
-		return c18Task{"decode with the shared option values -> recorder" + suffix, func() string {
+		return c18Task{name: "decode with the shared option values -> recorder" + suffix, run: func() string {
 			rd := &world.RecDest{}
 			err := decode.Decode(wrap(rd), src, opts...)
 			return digestCalls(rd.Calls, err)
 		}}
 	case 6:
 		prog := p.progs[t.Intn(len(p.progs))]
-		return c18Task{"program(Generator helpers, path data)->Encoder" + suffix, func() string {
+		return c18Task{name: "program(Generator helpers, path data)->Encoder" + suffix, run: func() string {
 			var e encode.Encoder
 			world.Run(world.Target{Dst: wrap(&e), Enc: &e}, prog)
 			b, err := e.Bytes()
@@ -337,7 +352,7 @@ func c18MakeTask(t *tape.Tape, p *c18Pool) c18Task {
 		}}
 	case 7:
 		prog := p.progs[t.Intn(len(p.progs))]
-		return c18Task{"program(Generator helpers, path data)->Renderer->recording rasteriser" + suffix, func() string {
+		return c18Task{name: "program(Generator helpers, path data)->Renderer->recording rasteriser" + suffix, run: func() string {
 			z := &world.RecRaster{}
 			var r render.Renderer
 			r.SetRasterizer(z, rect)
@@ -348,7 +363,7 @@ func c18MakeTask(t *tape.Tape, p *c18Pool) c18Task {
 		pal := p.pals[t.Intn(len(p.pals))]
 		cregs := p.cregs
 		seed := t.Intn(1 << 30)
-		return c18Task{"colour helpers over a shared palette", func() string {
+		return c18Task{name: "colour helpers over a shared palette", run: func() string {
 			h := uint64(seed)
 			for i := 0; i < 96; i++ {
 				x := byte(h>>7) ^ byte(i*37)
@@ -377,7 +392,7 @@ func c18MakeTask(t *tape.Tape, p *c18Pool) c18Task {
 		d := world.GenPathData(t, true)
 		sx, tx := float32(1+t.Intn(4)), float32(t.Range(-32, 32))
 		hi := t.Bool()
-		return c18Task{"copy of a template Generator: SetTransform + SetPathData -> Encoder", func() string {
+		return c18Task{name: "copy of a template Generator: SetTransform + SetPathData -> Encoder", run: func() string {
 			var e encode.Encoder
 			e.Reset(ivg.DefaultViewBox, ivg.DefaultPalette)
 			e.HighResolutionCoordinates = hi
@@ -393,7 +408,7 @@ func c18MakeTask(t *tape.Tape, p *c18Pool) c18Task {
 		d := world.GenPathData(t, false)
 		op := float32(t.Intn(5)) / 4
 		circles := []mdicons.Circle{{Cx: 24, Cy: 24, R: float32(1 + t.Intn(8))}}
-		return c18Task{"mdicons.ParsePath (opacity blend, circles) -> Encoder", func() string {
+		return c18Task{name: "mdicons.ParsePath (opacity blend, circles) -> Encoder", run: func() string {
 			var e encode.Encoder
 			e.Reset(ivg.ViewBox{MinX: -24, MinY: -24, MaxX: 24, MaxY: 24}, ivg.DefaultPalette)
 			adjs := map[float32]uint8{}
@@ -403,12 +418,12 @@ func c18MakeTask(t *tape.Tape, p *c18Pool) c18Task {
 			return fmt.Sprintf("err=%s bytes-err=%s %d bytes %016x adjs=%d", errText(err), errText(berr), len(b), fnv(b), len(adjs))
 		}}
 	case 12:
-		return c18Task{"decode -> DestinationLogger without a destination" + suffix, func() string {
+		return c18Task{name: "decode -> DestinationLogger without a destination" + suffix, run: func() string {
 			err := decode.Decode(&ivg.DestinationLogger{Alt: true}, src)
 			return "err=" + errText(err)
 		}}
 	case 13:
-		return c18Task{"decode->Renderer->RasterizerLogger->recording rasteriser" + suffix, func() string {
+		return c18Task{name: "decode->Renderer->RasterizerLogger->recording rasteriser" + suffix, run: func() string {
 			z := &world.RecRaster{}
 			var r render.Renderer
 			r.SetRasterizer(&raster.RasterizerLogger{Rasterizer: z}, rect)
@@ -418,7 +433,7 @@ func c18MakeTask(t *tape.Tape, p *c18Pool) c18Task {
 	default:
 		vbs := []ivg.ViewBox{ivg.DefaultViewBox, {MinX: 0, MinY: 0, MaxX: 48, MaxY: 24}}
 		vb := vbs[t.Intn(2)]
-		return c18Task{"viewBox helpers", func() string {
+		return c18Task{name: "viewBox helpers", run: func() string {
 			h := uint64(1)
 			for i := 1; i < 20; i++ {
 				a, b, c, d := vb.AspectMeet(float32(10*i), 64, ivg.Mid, ivg.Max)
@@ -695,6 +710,21 @@ func c18Run(ctx *Ctx, t *tape.Tape) *report.Violation {
 	if name := checkDeep(); name != "" {
 		return fail(viol("C18", "global-written", "package-level variable %s (or data it points to) was written during the solo runs", name))
 	}
+	// results the tasks still hold must not have changed under them
+	stillHolds := func(res []string, when string) *report.Violation {
+		for i := range tasks {
+			if tasks[i].kept == nil || strings.HasPrefix(res[i], "panic:") {
+				continue
+			}
+			if h := fmt.Sprintf("%016x", fnv(*tasks[i].kept)); !strings.HasSuffix(res[i], h) {
+				return viol("C18", "result", "the bytes task %d (%s) was given and still holds changed after it got them (%s): they now hash to %s, it received %s", i, tasks[i].name, when, h, res[i])
+			}
+		}
+		return nil
+	}
+	if v := stillHolds(solo, "while the other tasks ran alone, one after the other"); v != nil {
+		return fail(v)
+	}
 	total := 0
 	for _, s := range soloSteps {
 		total += s
@@ -778,6 +808,9 @@ func c18Run(ctx *Ctx, t *tape.Tape) *report.Violation {
 		if strings.Contains(m, sched.ErrRunaway.Error()) {
 			return fail(viol("C18", "result", "the scheduled run did not finish within 50x the solo step count (%s)", m), schedTrace...)
 		}
+	}
+	if v := stillHolds(results, "under this interleaving"); v != nil {
+		return fail(v, schedTrace...)
 	}
 	for i := range tasks {
 		if results[i] == "" && stt.Panics[i] != "" {
